@@ -84,6 +84,99 @@ def _method_row(fn: ast.AsyncFunctionDef) -> Tuple[str, List[str], str, bool, st
     return fn.name, aliases, action, via_any, _ann(fn.returns)
 
 
+def _const_int(node: ast.AST, what: str) -> int:
+    """integer constant expression: literals, `**`, `*`"""
+    if isinstance(node, ast.Constant) and isinstance(node.value, int) and not isinstance(node.value, bool):
+        return node.value
+    if isinstance(node, ast.BinOp) and isinstance(node.op, (ast.Pow, ast.Mult)):
+        a, b = _const_int(node.left, what), _const_int(node.right, what)
+        return a ** b if isinstance(node.op, ast.Pow) else a * b
+    raise Untranslatable(f"{what}: expected an integer constant expression, got {ast.dump(node)[:80]}")
+
+
+COUNTER_GETTERS = ["async_get_total_bytes_received", "async_get_total_bytes_sent",
+                   "async_get_total_packets_received", "async_get_total_packets_sent"]
+
+
+def _getter_pin(fn: ast.AsyncFunctionDef):
+    """`if total < 0: self._offset_x = C` and `return total + self._offset_x` -> (True, C)"""
+    found = None
+    for node in ast.walk(fn):
+        if isinstance(node, ast.If) and isinstance(node.test, ast.Compare) and len(node.test.ops) == 1 \
+                and isinstance(node.test.left, ast.Name) and len(node.body) == 1 and isinstance(node.body[0], ast.Assign) \
+                and isinstance(node.body[0].targets[0], ast.Attribute) and node.body[0].targets[0].attr.startswith("_offset_"):
+            if found is not None:
+                raise Untranslatable(f"{fn.name}: more than one offset rule")
+            lt0 = isinstance(node.test.ops[0], ast.Lt) and isinstance(node.test.comparators[0], ast.Constant) \
+                and node.test.comparators[0].value == 0
+            found = (lt0, _const_int(node.body[0].value, f"{fn.name}: offset"), node.test.left.id,
+                     node.body[0].targets[0].attr)
+    if found is None:
+        raise Untranslatable(f"{fn.name}: offset rule `if total < 0: self._offset_x = C` not found")
+    lt0, const, total, off = found
+    ret_ok = any(isinstance(n, ast.Return) and isinstance(n.value, ast.BinOp) and isinstance(n.value.op, ast.Add)
+                 and isinstance(n.value.left, ast.Name) and n.value.left.id == total
+                 and isinstance(n.value.right, ast.Attribute) and n.value.right.attr == off for n in ast.walk(fn))
+    if not ret_ok:
+        raise Untranslatable(f"{fn.name}: `return {total} + self.{off}` not found")
+    return lt0, const
+
+
+def _derive_pin(mod: ast.Module):
+    """`_derive_value_per_second`: wrap test, KiB divisor and the names it applies to, final division"""
+    consts = {n.targets[0].id: n.value.value for n in mod.body
+              if isinstance(n, ast.Assign) and isinstance(n.targets[0], ast.Name) and isinstance(n.value, ast.Constant)}
+    fn = next((n for n in mod.body if isinstance(n, ast.FunctionDef) and n.name == "_derive_value_per_second"), None)
+    if fn is None:
+        raise Untranslatable("_derive_value_per_second not found")
+    wrap = kib = names = None
+    for node in ast.walk(fn):
+        if isinstance(node, ast.If) and isinstance(node.test, ast.Compare) and len(node.test.ops) == 1:
+            t = node.test
+            if isinstance(t.ops[0], (ast.Gt, ast.GtE, ast.Lt, ast.LtE)) and isinstance(t.left, ast.Name) \
+                    and isinstance(t.comparators[0], ast.Name) and {t.left.id, t.comparators[0].id} == {"last_value", "current_value"}:
+                returns_none = len(node.body) == 1 and isinstance(node.body[0], ast.Return) and \
+                    (node.body[0].value is None or (isinstance(node.body[0].value, ast.Constant) and node.body[0].value.value is None))
+                wrap = returns_none and isinstance(t.ops[0], ast.Gt) and t.left.id == "last_value"
+            if isinstance(t.ops[0], ast.In) and isinstance(t.left, ast.Name) and t.left.id == "value_name":
+                names = [consts[e.id] if isinstance(e, ast.Name) else _str_const(e, "value names") for e in t.comparators[0].elts]
+                a = node.body[0]
+                if not (len(node.body) == 1 and isinstance(a, ast.Assign) and isinstance(a.value, ast.BinOp)
+                        and isinstance(a.value.op, ast.Div) and isinstance(a.value.left, ast.Name) and a.value.left.id == "delta_value"):
+                    raise Untranslatable("_derive_value_per_second: unrecognised KiB scaling")
+                kib = _const_int(a.value.right, "KiB divisor")
+    last = fn.body[-1]
+    final_ok = isinstance(last, ast.Return) and isinstance(last.value, ast.BinOp) and isinstance(last.value.op, ast.Div) \
+        and isinstance(last.value.left, ast.Name) and last.value.left.id == "delta_value" \
+        and ast.unparse(last.value.right) == "delta_time.total_seconds()"
+    if wrap is None or kib is None or names is None:
+        raise Untranslatable("_derive_value_per_second: wrap test / KiB scaling not found")
+    return bool(wrap), kib, names, final_ok
+
+
+def _aggregator_pin(fn: ast.AsyncFunctionDef):
+    """the `asyncio.gather(...)` of the poll: getters in order, return_exceptions, raise only without non-exceptions"""
+    order = rexc = None
+    raise_guard = False
+    for node in ast.walk(fn):
+        if isinstance(node, ast.Call) and isinstance(node.func, ast.Attribute) and node.func.attr == "gather":
+            order = []
+            for a in node.args:
+                if not (isinstance(a, ast.Call) and isinstance(a.func, ast.Attribute) and isinstance(a.func.value, ast.Name)
+                        and a.func.value.id == "self" and not a.args and not a.keywords):
+                    raise Untranslatable("poll: unrecognised gather argument")
+                order.append(a.func.attr)
+            rexc = any(k.arg == "return_exceptions" and isinstance(k.value, ast.Constant) and k.value.value is True
+                       for k in node.keywords)
+        if isinstance(node, ast.If) and ast.unparse(node.test) == "not non_exceptions" \
+                and any(isinstance(n, ast.Raise) for n in ast.walk(node)):
+            raise_guard = True
+    raises = [n for n in ast.walk(fn) if isinstance(n, ast.Raise)]
+    if order is None:
+        raise Untranslatable("poll: asyncio.gather not found")
+    return order, bool(rexc), raise_guard and len(raises) == 1
+
+
 @extract.generator("C20Igd")
 def gen(repo: Path) -> str:
     mod = extract.parse(repo, SRC)
@@ -110,6 +203,12 @@ def gen(repo: Path) -> str:
             raise Untranslatable(f"unexpected method {node.name} in IgdDevice")
     if service_types is None or device_types is None or not rows:
         raise Untranslatable("_SERVICE_TYPES / DEVICE_TYPES / facade methods not found")
+    fns = {n.name: n for n in igd.body if isinstance(n, ast.AsyncFunctionDef)}
+    getter_pins = [_getter_pin(fns[g]) for g in COUNTER_GETTERS if g in fns]
+    if len(getter_pins) != 4 or "async_get_traffic_and_status_data" not in fns:
+        raise Untranslatable("counter getters / poll not found")
+    wrap, kib, kib_names, final_ok = _derive_pin(mod)
+    order, rexc, raise_guard = _aggregator_pin(fns["async_get_traffic_and_status_data"])
     tuples = []
     for node in mod.body:
         if isinstance(node, ast.ClassDef) and any(isinstance(b, ast.Name) and b.id == "NamedTuple" for b in node.bases):
@@ -132,5 +231,13 @@ def gen(repo: Path) -> str:
     out.append("def igdTuples : List (S × List (S × S)) := [\n")
     out.append(",\n".join(
         f"  ({chars(n)}, {lean_list('(' + chars(f) + ', ' + chars(t) + ')' for f, t in fs)})" for n, fs in tuples))
-    out.append("]\n\nend Upnp.Gen.C20Igd\n")
+    b = lambda x: "true" if x else "false"  # noqa: E731
+    out.append("]\n\n/-- the arithmetic of the counter part as written in the source -/\n")
+    out.append("def igdCounterPins : CounterPins :=\n")
+    out.append(f"  {{ negTests := {lean_list(b(p[0]) for p in getter_pins)},\n")
+    out.append(f"    offsets := {lean_list(str(p[1]) for p in getter_pins)},\n")
+    out.append(f"    wrapTest := {b(wrap)}, kib := {kib}, kibNames := {lean_list(chars(n) for n in kib_names)},\n")
+    out.append(f"    perSecond := {b(final_ok)}, gatherOrder := {lean_list(chars(m) for m in order)},\n")
+    out.append(f"    returnExceptions := {b(rexc)}, raiseOnlyWithoutResult := {b(raise_guard)} }}\n")
+    out.append("\nend Upnp.Gen.C20Igd\n")
     return "".join(out)
